@@ -1586,6 +1586,8 @@ class Program:
             a = args[i]
             if cval(sk(a)) == 0:
                 continue
+            if sk(a).get("k") == "Str":
+                continue        # a string literal (inflateInit's ZLIB_VERSION): no object of the program is written through it
             t = sk(a).get("t", {})
             pt = t.get("to") or t.get("elem")
             if sk(a).get("k") == "Un" and sk(a)["op"] == "&":
